@@ -55,6 +55,7 @@ PROPS["C05"] = {
     "level_note": RT_NOTE,
     "parts": [
         {"name": "regression", "kind": "plain", "test": "TestReplayDir"},
+        {"name": "hash-twins", "kind": "plain", "test": "TestC05Twins"},
         {"name": "magic", "kind": "plain", "test": "TestC05Magic"},
         {"name": "exhaustive", "kind": "plain", "test": "TestC05Exhaustive"},
         {"name": "rapid", "kind": "rapid", "test": "TestC05Rapid", "checks": {"quick": 120000, "thorough": 4000000}},
@@ -72,6 +73,8 @@ PROPS["C06"] = {
     "level_note": RT_NOTE,
     "parts": [
         {"name": "regression", "kind": "plain", "test": "TestReplayDir"},
+        {"name": "magic", "kind": "plain", "test": "TestC06Magic"},
+        {"name": "hash-twins", "kind": "plain", "test": "TestC06Twins"},
         {"name": "covering", "kind": "plain", "test": "TestC06Covering"},
         {"name": "exhaustive", "kind": "plain", "test": "TestC06Exhaustive"},
         {"name": "rapid", "kind": "rapid", "test": "TestC06Rapid", "checks": {"quick": 300000, "thorough": 3000000}},
@@ -90,6 +93,8 @@ PROPS["C07"] = {
     "level_note": RT_NOTE,
     "parts": [
         {"name": "regression", "kind": "plain", "test": "TestReplayDir"},
+        {"name": "long", "kind": "plain", "test": "TestC07Long"},
+        {"name": "hash-twins", "kind": "plain", "test": "TestC07Twins"},
         {"name": "magic", "kind": "plain", "test": "TestC07Magic"},
         {"name": "exhaustive", "kind": "plain", "test": "TestC07Exhaustive"},
         {"name": "rapid", "kind": "rapid", "test": "TestC07Rapid", "checks": {"quick": 100000, "thorough": 3000000}},
@@ -106,6 +111,8 @@ PROPS["C08"] = {
     "level_note": RT_NOTE + "; element widths: narrow = 1 module, wide = 2 or 3 modules (the pinned test-suite fixes 2-module wide bars in the standard start/stop and 3-module wide data bars)",
     "parts": [
         {"name": "regression", "kind": "plain", "test": "TestReplayDir"},
+        {"name": "long", "kind": "plain", "test": "TestC08Long"},
+        {"name": "hash-twins", "kind": "plain", "test": "TestC08Twins"},
         {"name": "magic", "kind": "plain", "test": "TestC08Magic"},
         {"name": "exhaustive", "kind": "plain", "test": "TestC08Exhaustive"},
         {"name": "rapid", "kind": "rapid", "test": "TestC08Rapid", "checks": {"quick": 100000, "thorough": 3000000}},
@@ -141,6 +148,7 @@ PROPS["C01"] = {
     "level_note": RT_NOTE + "; QR block and alignment tables generated from an unrelated implementation found on this machine (npm qrcode-terminal, one known error corrected) and validated against the module-count formula; mask choice and segmentation are not judged",
     "parts": [
         {"name": "regression", "kind": "plain", "test": "TestReplayDir"},
+        {"name": "hash-twins", "kind": "plain", "test": "TestC01Twins"},
         {"name": "magic", "kind": "plain", "test": "TestC01Magic"},
         {"name": "sweep", "kind": "plain", "test": "TestC01Sweep", "plain_shards": 2},
         {"name": "zero-ecc", "kind": "plain", "test": "TestC01ZeroECC"},
@@ -162,6 +170,7 @@ PROPS["C02"] = {
     "level_note": RT_NOTE + "; 144x144 block layout per ISO 16022 (stream codeword p belongs to block p mod 10)",
     "parts": [
         {"name": "regression", "kind": "plain", "test": "TestReplayDir"},
+        {"name": "hash-twins", "kind": "plain", "test": "TestC02Twins"},
         {"name": "magic", "kind": "plain", "test": "TestC02Magic"},
         {"name": "sweep", "kind": "plain", "test": "TestC02Sweep", "plain_shards": 2},
         {"name": "zero-ecc", "kind": "plain", "test": "TestC02ZeroECC"},
@@ -183,6 +192,7 @@ PROPS["C04"] = {
     "level_note": RT_NOTE + "; the 3x929 pattern table is a frozen copy of the pinned tree validated structurally (17 modules, 4+4 elements of width 1..6, cluster formula, distinctness) - no second source exists offline; shape choice and compaction choices are not judged",
     "parts": [
         {"name": "regression", "kind": "plain", "test": "TestReplayDir"},
+        {"name": "hash-twins", "kind": "plain", "test": "TestC04Twins"},
         {"name": "magic", "kind": "plain", "test": "TestC04Magic"},
         {"name": "sweep", "kind": "plain", "test": "TestC04Sweep", "plain_shards": 2},
         {"name": "rapid", "kind": "rapid", "test": "TestC04Rapid", "checks": {"quick": 50000, "thorough": 2000000}},
@@ -209,6 +219,7 @@ PROPS["C03"] = {
     "level_note": RT_NOTE + "; the data-layer geometry follows the reading used by the ZXing reader and is self-tested on two externally sourced symbols (compact 3-layer, full 6-layer); which mode path the encoder takes is not judged; acceptance near capacity is judged in C10/C13",
     "parts": [
         {"name": "regression", "kind": "plain", "test": "TestReplayDir"},
+        {"name": "hash-twins", "kind": "plain", "test": "TestC03Twins"},
         {"name": "magic", "kind": "plain", "test": "TestC03Magic"},
         {"name": "known-findings", "kind": "plain", "test": "TestC03KnownFindings"},
         {"name": "sweep", "kind": "plain", "test": "TestC03Sweep", "plain_shards": 2},
@@ -263,6 +274,7 @@ PROPS["C09"] = {
     "parts": [
         {"name": "regression", "kind": "plain", "test": "TestReplayDir"},
         {"name": "window", "kind": "plain", "test": "TestC09Window"},
+        {"name": "giant", "kind": "plain", "test": "TestC09Giant"},
         {"name": "rapid", "kind": "rapid", "test": "TestC09Rapid", "checks": {"quick": 30000, "thorough": 1000000}},
     ],
     "universes": {"source_families": [f"{f} {c}" for f in ("qr", "datamatrix", "aztec", "pdf417", "code128", "code128nc", "code39", "code93", "codabar", "ean", "2of5", "itf") for c in ("plain", "colour")]},
@@ -394,5 +406,16 @@ RULE_ADDENDA['C16'] += ' bursts also: 64 goroutines encoding adjacent sub-slices
 RULE_ADDENDA['C17'] += ' Operands (polynomial objects and the slices handed to NewGFPoly) must be unchanged after every operation; every slice returned by Encode is overwritten before the next call of the history.'
 RULE_ADDENDA['C18'] += ' AddBits counts up to 255 (bits above 63 = sign); iter2 = a second channel view opened while the first is half read, both must yield the whole sequence.'
 RULE_ADDENDA['C09'] += ' One case in forty starts with a print-sized enlargement (factor 20..130, up to 2 million pixels); results also read through RGBA64At / image/draw.'
+for _pid in ('C01', 'C02', 'C03', 'C04', 'C05', 'C06', 'C07', 'C08'):
+    RULE_ADDENDA[_pid] = RULE_ADDENDA.get(_pid, '') + ' hash-twins part: pairs of different contents with the same FNV-1a / FNV-1 / CRC-32 / CRC-32C / Adler-32 / djb2 / 31x hash (birthday search over the family alphabet), each run as A, B, A in one process.'
+for _pid in ('C07', 'C08'):
+    RULE_ADDENDA[_pid] = RULE_ADDENDA.get(_pid, '') + ' long part: contents of 4000, 30000 and 70000 high-valued characters through every entry point (no length limit exists).'
+RULE_ADDENDA['C06'] += ' magic part: decorated forms of valid numbers (interpretation-line blanks/hyphens, symbology identifiers ]E0/]E4, labels, add-ons, signs, surrounding whitespace, digits of other scripts): all must be rejected.'
+RULE_ADDENDA['C09'] += ' giant part: 20 poster-/banner-sized targets per source (up to beyond 2^32 pixels, extreme aspect ratios), decision, bounds, accessors and a sparse pixel sample (corners, symbol-area borders, block borders, scatter) compared with the model.'
+RULE_ADDENDA['C15'] += ' orders also: QR stream twins (same version/level, codeword streams with equal 32-bit digests) and 28 prefix-then-extension histories (cuts through multi-character units) as two-call histories; a result that exposes a Set method is painted over before the call is repeated.'
+RULE_ADDENDA['C17'] += ' A second division by the same divisor object after its leading coefficient was changed; data lengths up to 4097 symbols.'
+RULE_ADDENDA['C18'] += ' iterhold = a view read to exactly its length and kept: it must yield nothing more after later appends; one slow consumer (2.5 s pause, thorough 11 s).'
+RULE_ADDENDA['C10'] += ' Also lengths that wrap 16-/17-bit counters (2^16, 2^16+5, 2^16+1000, 2^17, ...) for every 2D symbology, and the same foreign byte twice at pair starts / pair ends.'
+RULE_ADDENDA['C11'] = ' Schemes also: black/white/red written in seven colour types (look-alikes), a caller-defined colour type, *image.Uniform.'
 for _pid, _add in RULE_ADDENDA.items():
     PROPS[_pid]["rule"] += _add
